@@ -270,7 +270,8 @@ func (a *Agent) gatherCandidatesInternal(ctx context.Context) {
 		case CandidateTypeHost:
 			wg.Add(1)
 			go func() {
-				a.gatherCandidatesLocal(ctx, a.networkTypes)
+				// An empty network type list means all network types.
+				a.gatherCandidatesLocal(ctx, configuredNetworkTypes(a.networkTypes))
 				wg.Done()
 			}()
 		case CandidateTypeServerReflexive:
@@ -291,13 +292,15 @@ func (a *Agent) gatherCandidatesInternal(ctx context.Context) {
 
 func (a *Agent) gatherServerReflexiveCandidates(ctx context.Context, wg *sync.WaitGroup) {
 	replaceSrflx := a.addressRewriteMapper != nil && a.addressRewriteMapper.shouldReplace(CandidateTypeServerReflexive)
+	// An empty network type list means all network types.
+	networkTypes := configuredNetworkTypes(a.networkTypes)
 	if !replaceSrflx {
 		wg.Add(1)
 		go func() {
 			if a.udpMuxSrflx != nil {
-				a.gatherCandidatesSrflxUDPMux(ctx, a.urls, a.networkTypes)
+				a.gatherCandidatesSrflxUDPMux(ctx, a.urls, networkTypes)
 			} else {
-				a.gatherCandidatesSrflx(ctx, a.urls, a.networkTypes)
+				a.gatherCandidatesSrflx(ctx, a.urls, networkTypes)
 			}
 			wg.Done()
 		}()
@@ -305,7 +308,7 @@ func (a *Agent) gatherServerReflexiveCandidates(ctx context.Context, wg *sync.Wa
 	if a.addressRewriteMapper != nil && a.addressRewriteMapper.hasCandidateType(CandidateTypeServerReflexive) {
 		wg.Add(1)
 		go func() {
-			a.gatherCandidatesSrflxMapped(ctx, a.networkTypes)
+			a.gatherCandidatesSrflxMapped(ctx, networkTypes)
 			wg.Done()
 		}()
 	}
